@@ -395,7 +395,21 @@ def w_c02(seed):
     return {"found": False, "note": f"{len(C02_CASES)} inputs are accepted / rejected as dimensional analysis prescribes; " + r.get("note", "")}
 
 
-FINDERS = {"C09": w_c09, "C18": w_c18, "C06": w_c06, "C02": w_c02, "C11": w_c11, "C12": w_c12, "C21": w_c21, "C20": w_c20, "C10": w_c10, "C04": w_c04, "C05": w_c05, "C17": w_c17, "C07": w_c07}
+# ---------------------------------------------------------------- C08: inputs that must end with a result or a reported error
+C08_INPUTS = ["mod(0, 7 m)", "atan2(0, 1 m)", "mod(7 m, 0)", "mod(5 m, inf)", "atan2(1 m, inf)", "mod(7 m, 2 cm)", "atan2(1 m, 1 cm)", "mod(NaN, 1 m)", "atan2(NaN, 2 s)",
+              "1 / 0", "(-1)!", "2.5!", "mod(7, 0)", "sqrt(-1)", "parse(\"\")" if False else "1 m + 2 s", "[] |> head", "element_at(5, [1])", "str_slice(5, 2, \"ab\")",
+              "1e400", "2^1e10", "(2 m)^(1/0)", "10^400 m -> cm", "unit_of(0)", "value_of(inf m)"]
+
+
+def w_c08(seed):
+    for inp in C08_INPUTS:
+        rc, out = drive(["session"], "use prelude\n%%\n" + inp)
+        if rc != 0 or "panicked" in out:
+            return {"found": True, "kind": "session", "what": f"`{inp}` crashes the interpreter (exit status {rc}): {out.strip().splitlines()[-1][:200] if out.strip() else ''}", "input": inp, "output": out[-600:], "cmd": f"{BIN} session", "stdin": "use prelude\n%%\n" + inp}
+    return {"found": False, "note": f"{len(C08_INPUTS)} inputs with polymorphic literals, domain errors and extreme values end with a result or a reported error"}
+
+
+FINDERS = {"C08": w_c08, "C09": w_c09, "C18": w_c18, "C06": w_c06, "C02": w_c02, "C11": w_c11, "C12": w_c12, "C21": w_c21, "C20": w_c20, "C10": w_c10, "C04": w_c04, "C05": w_c05, "C17": w_c17, "C07": w_c07}
 
 
 def find(prop, obligation, tier):
